@@ -303,7 +303,12 @@ func (h *Client) Validate(sent []sts.Pollable) (polled []sts.Polled, err error) 
 		if sep != "" {
 			path = filepath.Join(strings.Split(path, sep)...)
 		}
-		orig := fmap[path]
+		orig, ok := fmap[path]
+		if !ok {
+			// Not a file we asked about (the caller would trip over an
+			// answer without a file behind it)
+			continue
+		}
 		polled = append(polled, &confirmed{
 			Pollable: orig,
 			code:     code,
